@@ -1,6 +1,7 @@
 package limsim
 
 import (
+	"errors"
 	"fmt"
 	"net/http"
 	"testing"
@@ -111,6 +112,19 @@ func c04core(r *simkit.Run, minSources int, forceFine bool) {
 	var clOpts []connlimit.Option
 	if rapid.IntRange(0, 2).Draw(rt, "slow-logger") == 0 {
 		clOpts = append(clOpts, connlimit.Logger(simkit.SlowLogger{}), connlimit.Verbose(rapid.Bool().Draw(rt, "verbose")))
+	}
+	ownHandler := rapid.IntRange(0, 2).Draw(rt, "own-error-handler") == 0
+	if ownHandler {
+		// same mapping as the default handler plus a mark: the configured handler answers every refusal, once
+		clOpts = append(clOpts, connlimit.ErrorHandler(utils.ErrorHandlerFunc(func(w http.ResponseWriter, req *http.Request, err error) {
+			w.Header().Add("X-Own-Err-Handler", "1")
+			var cerr *connlimit.MaxConnError
+			if errors.As(err, &cerr) {
+				w.WriteHeader(http.StatusTooManyRequests)
+				return
+			}
+			w.WriteHeader(http.StatusInternalServerError)
+		})))
 	}
 	cl, err := connlimit.New(handler, extract, int64(limit), clOpts...)
 	if err != nil {
@@ -323,6 +337,14 @@ func c04core(r *simkit.Run, minSources int, forceFine bool) {
 		check()
 	}
 
+	if ownHandler {
+		for _, q := range reqs {
+			if n := len(q.rec.Snapshot.Values("X-Own-Err-Handler")); q.done && !q.entered && n != 1 {
+				r.Fail("own-error-handler", "request r%d of s%d was not admitted (status %d) and the configured error handler answered %d times", q.id, q.src, q.rec.Status, n)
+			}
+		}
+		r.Probe("own-error-handler")
+	}
 	r.FromSim(sim)
 	if overlapMax >= 2 {
 		r.Nontrivial()
